@@ -357,8 +357,7 @@ def model_overlap(r, drv, n):
 def gen_case(rng, T, op, exhaustive_chunks=None):
     kind = T[op]["kind"]
     h, w = rng.randrange(1, 8), rng.randrange(1, 8)
-    if op in ("perlin", "generate_terrain", "hillshade"):
-        # hillshade: np.gradient needs >= 2 cells per axis (NumPy itself rejects smaller rasters)
+    if op in ("perlin", "generate_terrain"):
         h, w = rng.randrange(2, 8), rng.randrange(2, 8)
     if kind == "bands":
         dtype = rng.choice([np.uint8, np.uint16, np.int32, np.float32, np.float64])
@@ -375,8 +374,27 @@ def gen_case(rng, T, op, exhaustive_chunks=None):
         rch, cch = exhaustive_chunks(h, w)
     else:
         rch, cch = random_composition(rng, h), random_composition(rng, w)
+    params = gen_params(rng, op, h, w)
+    if op == "equal_interval" and rng.random() < 0.6:
+        # cells sitting exactly on (and one ulp around) the interval edges, in single and double precision:
+        # the two backends must lay out the *same* bins
+        dtype = rng.choice([np.float32, np.float32, np.float64])
+        lo, hi, k = float(rng.randrange(-3, 3)), float(rng.randrange(4, 12)), params["k"]
+        vals = [lo, hi]
+        for i in range(1, k):
+            e32 = np.float32(lo) + np.float32(i) * ((np.float32(hi) - np.float32(lo)) * np.float32(1.0) / np.float32(k))
+            e64 = lo + i * ((hi - lo) / k)
+            for e in (e32, np.float32(e64), np.nextafter(np.float32(e32), np.float32(np.inf)),
+                      np.nextafter(np.float32(e32), np.float32(-np.inf)), e64):
+                vals.append(float(e))
+        rng.shuffle(vals)
+        n = h * w
+        vals = (vals * (n // len(vals) + 1))[:n]
+        if n >= 2:
+            vals[0], vals[1] = lo, hi
+        data = [np.array(vals, dtype=np.float64).reshape(h, w).astype(dtype)]
     return dict(op=op, dtype=np.dtype(dtype).name, res=res, rch=rch, cch=cch, sched=rng.choice(SCHEDULERS),
-                params=gen_params(rng, op, h, w), data=data)
+                params=params, data=data)
 
 
 def known_domain_exclusion(c, st_n, out_n):
@@ -426,8 +444,8 @@ def run(r, scale=1):
         # every chunk composition of every shape up to 4x4 for the stencil / kernel operations
         r.exhaustive = True
         for op in ("slope", "aspect", "curvature", "hillshade", "mean", "apply", "convolution_2d", "hotspots"):
-            for h in range(2 if op == "hillshade" else 1, 5):
-                for w in range(2 if op == "hillshade" else 1, 5):
+            for h in range(1, 5):
+                for w in range(1, 5):
                     base = gen_case(r.rng, T, op)
                     a = gen_data(r.rng, h, w, np.float32, "dyadic")
                     base["data"], base["dtype"] = [a], "float32"
